@@ -46,13 +46,13 @@ Inductive ocode :=
 | OData (w : nat) (vals : list Z)
 | OResb (n : Z)
 | OAlignb (n : Z)
-| OJcc (name : string) (t : jtarget)
-| OJmpFar (seg off : Z)
+| OJcc (md : mode) (name : string) (t : jtarget)        (* md: the [BITS n] in force where the statement stands *)
+| OJmpFar (md : mode) (seg off : Z)
 | OJmpFarText
 | ONoParam (name : string)
 | OInt (v : option Z)
 | ORet
-| OInstr (mn : string) (ops : list exp)
+| OInstr (md : mode) (mn : string) (ops : list exp)
 | OUnmodelled.
 
 Record p1state := {
@@ -204,19 +204,19 @@ Definition do_jcc (s : p1state) (name : string) (ops : list exp) : p1state :=
           match e with
           | ENum v =>
               let est := match bmode s with M16 => 3 | M32 => estimate_jump name M32 end in
-              push_ocode (add_loc s est) (OJcc name (JNum v))
+              push_ocode (add_loc s est) (OJcc (bmode s) name (JNum v))
           | ESeg _ l (Some r) =>
               let est := match bmode s with M16 => 8 | M32 => 7 end in
               match get_const l, get_const r with
-              | Some sv, Some ov => if String.eqb name "JMP" then push_ocode (add_loc s est) (OJmpFar sv ov) else set_diag (add_loc s est)
+              | Some sv, Some ov => if String.eqb name "JMP" then push_ocode (add_loc s est) (OJmpFar (bmode s) sv ov) else set_diag (add_loc s est)
               | _, _ => if String.eqb name "JMP" then push_ocode (add_loc s est) OJmpFarText else set_diag (add_loc s est)
               end
-          | ESeg _ l None => push_ocode (add_loc (set_diag s) 7) (OJcc name JText)
+          | ESeg _ l None => push_ocode (add_loc (set_diag s) 7) (OJcc (bmode s) name JText)
           | EImm (FId lbl) =>
               (* "$" has been evaluated away; a remaining identifier is a label *)
               let s1 := if sym_has lbl (sym s) then s else set_sym s lbl 0 in
-              push_ocode (add_loc s1 (estimate_jump name (bmode s))) (OJcc name (JLabel lbl))
-          | _ => push_ocode (add_loc s (estimate_jump name (bmode s))) (OJcc name JText)
+              push_ocode (add_loc s1 (estimate_jump name (bmode s))) (OJcc (bmode s) name (JLabel lbl))
+          | _ => push_ocode (add_loc s (estimate_jump name (bmode s))) (OJcc (bmode s) name JText)
           end
       end
   | _ => set_diag s
@@ -282,7 +282,7 @@ Definition do_mnemonic (s : p1state) (op : string) (ops : list exp) : p1state :=
         match enc_est E (bmode s) op ops with
         | None => set_diag s
         | Some n => let s1 := add_loc (with_diag s (enc_diag E (bmode s) op ops)) n in
-                    if enc_kind_ok E op then push_ocode s1 (OInstr op ops) else set_diag s1
+                    if enc_kind_ok E op then push_ocode s1 (OInstr (bmode s) op ops) else set_diag s1
         end
   end.
 
@@ -372,7 +372,7 @@ Definition gen_ocode (m : mode) (st : symtab) (dol : Z) (len : Z) (o : ocode) : 
   | OAlignb n =>
       if (n <=? 0) || negb (Z.land n (n - 1) =? 0) then BytesDiag []
       else Bytes (zeros ((n - (dol + len) mod n) mod n))      (* the address, not the output length (fix 9af2c29) *)
-  | OJcc name t =>
+  | OJcc md name t =>        (* encoded in the mode recorded with the ocode, not in codegen's final mode (fix in /repo) *)
       let dest := match t with
                   | JLabel l => lookup l st
                   | JNum v => Some v
@@ -382,16 +382,16 @@ Definition gen_ocode (m : mode) (st : symtab) (dol : Z) (len : Z) (o : ocode) : 
       | None => BytesDiag []
       | Some d =>
           let rel := d - (dol + len) in
-          if String.eqb name "JMP" then Bytes (gen_jmp m rel)
-          else if String.eqb name "CALL" then Bytes (gen_call m rel)
+          if String.eqb name "JMP" then Bytes (gen_jmp md rel)
+          else if String.eqb name "CALL" then Bytes (gen_call md rel)
           else match lookup name jcc_table with
-               | Some opc => Bytes (gen_jcc m opc rel)
+               | Some opc => Bytes (gen_jcc md opc rel)
                | None => BytesDiag []
                end
       end
-  | OJmpFar sg off =>
+  | OJmpFar md sg off =>
       if in_range (-32768) 32767 sg && in_range (-2147483648) 2147483647 off then
-        Bytes ((match m with M16 => [102] | M32 => [] end) ++ 234 :: le 4 off ++ le 2 sg)
+        Bytes ((match md with M16 => [102] | M32 => [] end) ++ 234 :: le 4 off ++ le 2 sg)
       else BytesDiag []
   | OJmpFarText => BytesDiag []
   | ONoParam name => match lookup name noparam_table with
@@ -404,7 +404,7 @@ Definition gen_ocode (m : mode) (st : symtab) (dol : Z) (len : Z) (o : ocode) : 
               | None => BytesDiag []
               end
   | ORet => Bytes [195]
-  | OInstr mn ops => enc_emit E m st mn ops
+  | OInstr md mn ops => enc_emit E md st mn ops
   | OUnmodelled => EUnmod
   end.
 
